@@ -61,6 +61,16 @@ fn index_sessions(smi: &SourceMapIndex, how: &str, steps: &[Value], em: &mut Emi
 
 pub fn run(case: &Value, em: &mut Emitter) {
     let steps: Vec<Value> = case["steps"].as_array().cloned().unwrap_or_default();
+    if case["op"] == "view_lines" {
+        // the line iterator of a SourceView over what get_line(i) reports
+        let view = sourcemap::SourceView::new(crate::c15::text_of(&case["text"]).into());
+        let n = view.line_count();
+        let items: Vec<Value> = (0..n as u32).filter_map(|i| view.get_line(i)).map(cps).collect();
+        let fresh = sourcemap::SourceView::new(crate::c15::text_of(&case["text"]).into());   // not indexed yet
+        em.emit("session", json!({"how": "view", "kind": "lines", "items": items, "steps": steps}),
+                guard(|| session(fresh.lines(), cps, n + 2, &steps)));
+        return;
+    }
     for (how, _m, _doc, d) in realise(case) {
         match &d {
             DecodedMap::Regular(sm) => map_sessions(sm, &how, &steps, em),
@@ -74,6 +84,12 @@ pub fn run(case: &Value, em: &mut Emitter) {
 }
 
 pub fn gen(rng: &mut Rng, size: usize) -> Value {
+    if rng.chance(1, 5) {
+        let n = rng.below((size * 20) as u64 + 1) as usize;
+        let text = crate::c15::gen_text(rng, n);
+        let nl = 1 + text.iter().filter(|&&c| c == 10 || c == 13).count();
+        return json!({"op": "view_lines", "text": text, "steps": gen_steps(rng, nl.min(8))});
+    }
     let mut m = if rng.chance(1, 4) { json!({"op": "map", "doc": crate::c02::gen_index_doc(rng, size, 1)}) } else { crate::c01::gen_model(rng, size, false) };
     let n = m.get("toks").and_then(|t| t.as_array()).map(|a| a.len()).unwrap_or(4).min(8);
     m["steps"] = json!(gen_steps(rng, n));
